@@ -74,8 +74,7 @@ func (k *vC04Clock) now() int64             { return k.virt(time.Now()) }
 func (k *vC04Clock) real(v int64) time.Time { return k.base.Add(time.Duration(v) - k.adv) }
 
 // vC04Shift advances the virtual clock of c by d: entry stored/cutUntil,
-// subtree-cut stored/expires move back by d; the denial proof cache's
-// injectable clock moves forward by d. (The RFC 9520 failure cache is switched
+// subtree-cut stored/expires and denial-proof expiries move back by d. (The RFC 9520 failure cache is switched
 // off in these drivers; it is C13's subject.)
 func vC04Shift(c *Cache, k *vC04Clock, d time.Duration) {
 	c.store.ForEach(func(_ bool, _ uint64, e *CacheEntry) bool {
@@ -95,9 +94,17 @@ func vC04Shift(c *Cache, k *vC04Clock, d time.Duration) {
 	}
 	k.adv += d
 	if dp := c.store.denialProofs; dp != nil {
-		adv := k.adv
+		// same frame as everything else: move the stored expiries, not the clock
 		dp.mu.Lock()
-		dp.now = func() time.Time { return time.Now().Add(adv) }
+		for _, e := range dp.byID {
+			e.expires = e.expires.Add(-d)
+		}
+		for key, t := range dp.nsec3Conflicts {
+			dp.nsec3Conflicts[key] = t.Add(-d)
+		}
+		if !dp.nsec3ConflictOverflowUntil.IsZero() {
+			dp.nsec3ConflictOverflowUntil = dp.nsec3ConflictOverflowUntil.Add(-d)
+		}
 		dp.mu.Unlock()
 	}
 }
@@ -300,6 +307,7 @@ type vC04Env struct {
 	e     *edns.EDNS
 	k     *vC04Clock
 	stub  *vC04Stub
+	sub   *vC04Queryer
 	ecs   time.Duration
 	ids   map[*CacheEntry]int
 	nextI int
@@ -355,6 +363,8 @@ func (s *vC04Stub) ServeDNS(ctx context.Context, ch *middleware.Chain) {
 
 type vC04Queryer struct {
 	handlers []middleware.Handler
+	// done, when set, is told the question name of every sub-query as it returns
+	done func(name string)
 }
 
 // Query runs the sub-pipeline with a writer that reports Internal(), as
@@ -364,6 +374,9 @@ func (q *vC04Queryer) Query(ctx context.Context, req *dns.Msg) (*dns.Msg, error)
 	ch := middleware.NewChain(q.handlers)
 	ch.Reset(w, req)
 	ch.Next(ctx)
+	if q.done != nil && len(req.Question) > 0 {
+		q.done(strings.ToLower(req.Question[0].Name))
+	}
 	if !w.Written() {
 		return nil, middleware.ErrNoResponse
 	}
@@ -386,7 +399,8 @@ func vC04NewEnv(prefetch int, ecsMax time.Duration, expire int) *vC04Env {
 	k := vC04NewClock()
 	env := &vC04Env{c: c, e: edns.New(cfg), k: k, ecs: ecsMax, ids: map[*CacheEntry]int{}, nextI: 1}
 	env.stub = &vC04Stub{k: k, script: map[string]*vC04Script{}}
-	c.SetQueryer(&vC04Queryer{handlers: []middleware.Handler{c, env.stub}})
+	env.sub = &vC04Queryer{handlers: []middleware.Handler{c, env.stub}}
+	c.SetQueryer(env.sub)
 	return env
 }
 
